@@ -9,8 +9,11 @@ Oracle on the real code (independent of the Lean model):
   * after every call of the history, collect() == [target-info family if configured] + the families of the collectors
     registered so far, in registration order (reference list driven by the calls and whether they raised)
   * restricted_registry(names).collect() is, as a multiset, the filter of the full collection by sample name with
-    family name, type, help and unit unchanged and empty families dropped  (when every registered collector's sample
-    names are among the names it claims — otherwise the registry cannot know the collector, and only T2 applies)
+    family name, type, help and unit unchanged and empty families dropped.  This is checked for EVERY registry; when a
+    registered collector emits a sample under a name it does not claim (no describe() with auto_describe off, or an
+    under-reporting describe()) the registry cannot find it and the statement as written fails: that class — and only
+    it — is reported as C07:undescribed-collector-not-restrictable (a known finding; the hypothesis ClaimsCover of
+    restricted_is_filter excludes exactly it, theorem claims_cover_needed exhibits it)
   * collect() is invoked only on collectors claiming one of the names, at most once each
   * re-entrancy (oracle only, single-threaded): a collector whose collect() registers / unregisters another collector,
     unregisters itself or sets target info while the registry is being collected: collect() must not raise and follows
@@ -29,6 +32,7 @@ from props import c06 as base
 
 SIG_F5 = 'C07:restricted-drops-unit'
 SIG_F19 = 'C07:restricted-target-info-skips-claimant'
+SIG_UNDESCRIBED = 'C07:undescribed-collector-not-restrictable'
 MAX_REPORTS_PER_SIG = 3
 UNITS = ['', '', '', 'sec', 'bytes']
 
@@ -135,6 +139,10 @@ FIXED = [
 
 
 KEPT_CORPUS = [
+    # the known finding: no describe(), auto_describe off -> claims nothing -> restricted_registry(['x']) cannot find it
+    {'ad': False, 'ti': None, 'collectors': [
+        {'id': 1, 'kind': 'custom', 'describe': None, 'families': [fam_with_unit(100, 'x', 'gauge', '')]}],
+     'ops': [['r', 1]], 'watch': [], 'namesets': [['x']]},
     # one long-lived restricted registry, collected, then a collector it matched is unregistered, collected again
     {'ad': False, 'ti': None, 'collectors': [
         {'id': 1, 'kind': 'custom', 'describe': [['x', 'counter']], 'families': [fam_with_unit(100, 'x', 'counter', '')]},
@@ -228,11 +236,37 @@ class Runner:
         if extra or len(set(calls)) != len(calls):
             self.fail('C07:restricted-calls-non-claimant', '%s: collect() invoked on %r, claimants are %r'
                       % (where, calls, claimants), rcase)
-        if not covers or not exact_ok:
+        if not exact_ok:
             return res, calls, expected
         A, E = sorted(res), sorted(expected)
         if A == E:
             return res, calls, expected
+        if not covers:
+            # Some registered collector emits a sample under a name it does not claim (no describe() with auto_describe off,
+            # or a describe() that under-reports).  The registry cannot find it through that name: known finding.  The
+            # signature is used ONLY when that explains the whole difference: the result must be the filter over the
+            # collectors that claim a listed name, and every sample missing from it must bear a name its collector does
+            # not claim.
+            E3 = list(filt(full_ti, ns))
+            hidden = []
+            for cid in regs:
+                mine = set(prep.claims(cid))
+                if mine & ns:
+                    E3 += filt(prep.enc_fams[cid], ns)
+                else:
+                    lost = [s.name for m in prep.fams[cid] for s in m.samples if s.name in ns]
+                    if lost:
+                        if all(n not in mine for n in lost):
+                            hidden.append((cid, sorted(set(lost))))
+                        else:
+                            hidden = None
+                            break
+            if hidden and A == sorted(E3):
+                self.fail(SIG_UNDESCRIBED, '%s: collector(s) %r emit samples under names they do not claim (no describe() with '
+                          'auto_describe off, or describe() under-reports), so the registry cannot select them: restricted '
+                          'collect yields %r, the filter of the full collection is %r'
+                          % (where, hidden, show(A), show(E)), rcase)
+                return res, calls, expected
         if sorted(map(strip_unit, A)) == sorted(map(strip_unit, E)):
             lost = [e for e in E if e not in A]
             self.fail(SIG_F5, '%s: restricted family differs from the full collection only in its unit: expected %r, got %r'
@@ -516,7 +550,7 @@ def run(ctx):
                 'part of the full collection; distinct by (full collection, name set)')
     rn = Runner(ctx)
     for case in KEPT_CORPUS:
-        rn.one(case, n_random_sets=2)
+        rn.one(case, namesets=case.get('namesets'), n_random_sets=2)
     for case, names in FIXED:
         subsets = [list(s) for k in range(len(names) + 1) for s in itertools.combinations(names, k)]
         rn.one(case, namesets=subsets)
